@@ -2953,8 +2953,16 @@ class SFTPClientHandler(SFTPHandler):
         self.logger.debug1('Sending read for %s at offset %d in handle %s',
                            plural(length, 'byte'), offset, handle.hex())
 
-        return cast(Tuple[bytes, bool], await self._make_request(
+        data, at_end = cast(Tuple[bytes, bool], await self._make_request(
             FXP_READ, String(handle), UInt64(offset), UInt32(length)))
+
+        # End of file is reported as a status. A reply which carries no
+        # data says nothing about the bytes that were asked for, and taking
+        # it for a successful read would leave a gap in what is returned.
+        if length and not data and not at_end:
+            raise SFTPBadMessage('No data in read response')
+
+        return data, at_end
 
     async def write(self, handle: bytes, offset: int, data: bytes) -> int:
         """Make an SFTP write request"""
